@@ -76,11 +76,23 @@ func isProductPkg(rel string) bool {
 func (c *Ctx) productFuncs() []*ssa.Function {
 	var out []*ssa.Function
 	for _, f := range c.P.Funcs {
+		if isInstance(f) {
+			continue // bodies of instantiations duplicate their generic origin
+		}
 		if isProductPkg(engine.RelPkg(c.P.OwnPkgPath(f))) {
 			out = append(out, f)
 		}
 	}
 	return out
+}
+
+func isInstance(f *ssa.Function) bool {
+	for ; f != nil; f = f.Parent() {
+		if f.Origin() != nil && f.Origin() != f {
+			return true
+		}
+	}
+	return false
 }
 
 func sortedKeys[V any](m map[string]V) []string {
